@@ -175,6 +175,21 @@ def optsLast : ML → Bool
   | .cons (.optional _) ms => allOptional ms
   | .cons t ms => noOptM t && optsLast ms
 
+mutual
+/-- no `int32_string` (whose decoder accepts non-canonical decimal strings silently) and no
+`int32_twstring` anywhere inside -/
+def noIntStrM : MT → Bool
+  | .int32String => false
+  | .twString _ => false
+  | .optional t => noIntStrM t
+  | .array _ t => noIntStrM t
+  | .object ms => noIntStrMs ms
+  | _ => true
+def noIntStrMs : ML → Bool
+  | .nil => true
+  | .cons t ms => noIntStrM t && noIntStrMs ms
+end
+
 /-- identifiers `encode_id` accepts and `decode_id` gives back -/
 def idOk : Ident → Bool
   | .ordinal i => decide (0 < i) && decide (i < 2 ^ 30)
@@ -188,11 +203,18 @@ def idsOk (p : ProtoSpec) : Bool :=
   p.connless.all (fun s => decide (s.id.length = 8) && decide (findConnless s.id p.connless = some s)) &&
   p.objects.all (fun s => decide (findSpec s.id p.objects = some s) && !s.members.isNil)
 
-/-- Every message / object description of a protocol is one the generator can emit. -/
+/-- the messages of a protocol for which "decodes without warning" means "is canonical" -/
+def cleanCanonCount (p : ProtoSpec) : Nat × Nat :=
+  let f := fun (ms : ML) => noOptMs ms && noIntStrMs ms
+  ((p.system.filter fun s => f s.members).length + (p.game.filter fun s => f s.members).length +
+    (p.connless.filter fun s => f s.members).length,
+   p.system.length + p.game.length + p.connless.length)
+
 def optsLastProto (p : ProtoSpec) : Bool :=
   p.system.all (fun s => optsLast s.members) && p.game.all (fun s => optsLast s.members) &&
   p.connless.all (fun s => optsLast s.members)
 
+/-- Every message / object description of a protocol is one the generator can emit. -/
 def wfProto (p : ProtoSpec) : Bool :=
   p.system.all (fun s => wfMs s.members) && p.game.all (fun s => wfMs s.members) &&
   p.connless.all (fun s => wfMs s.members) && p.objects.all (fun s => wfOs s.members)
